@@ -299,7 +299,7 @@ def run(ctx):
                 'larger ones; each case evaluates all 12 maps and 6 projections (values of dtype float64, int64, float32, bool) on every index, in the (n,) and (n,1) '
                 'layouts; non-trivial = has both selected and unselected cycles, or unlabelled samples and a selection'
                 % ((8, 3) if ctx.quick() else (12, 4)))
-    ctx.proof(extra=['props/Prop_Tie_Maps.v', 'props/Prop_Tie_Cyclesobj.v'])  # translation tie: program regenerated from the source + refinement theorems
+    ctx.proof(extra=['props/Prop_Tie_Maps.v', 'props/Prop_Tie_Cyclesobj.v', 'props/Prop_Tie_Cyciter.v'])  # translation tie: program regenerated from the source + refinement theorems
     cases = gen_cases(ctx)
     ctx.exhaustive = True
     lits = ['(%s, %s)' % (zlist(cv), blist(v)) for cv, v in cases]
